@@ -794,3 +794,10 @@ var wave10Witnesses14 = []Witness{
 	{Name: "lexer-doubled-quote-continues-the-string", Rule: "R-FMTCLASS", Doc: "seeded change C14-j", Edits: []Edit{
 		{File: "parser.go", Old: "				if A[i] == '\"' {\n					i++\n					return string(A[start:i]), nil\n				}", New: "				if A[i] == '\"' {\n					if i > start+1 && i+1 < len(A) && A[i+1] == '\"' {\n						i++\n						continue\n					}\n					i++\n					return string(A[start:i]), nil\n				}"}}},
 }
+
+var errPathWitnesses = []Witness{
+	{Name: "missing-close-paren-is-tested-and-ignored", Rule: "R-ERRDROP", Doc: "guard-deletion mutant of the mutation run (ifdel) in its source form", Edits: []Edit{
+		{File: "parser.go", Old: "	err = p.eat(rParen)\n	if err != nil {\n		return nil, err\n	}\n\n	return p.buildParentNode(car, children)", New: "	err = p.eat(rParen)\n	if err != nil {\n		p.idx = len(p.tokens)\n	}\n\n	return p.buildParentNode(car, children)"}}},
+	{Name: "benign-close-paren-error-test-inverted", Benign: true, Edits: []Edit{
+		{File: "parser.go", Old: "	err = p.eat(rParen)\n	if err != nil {\n		return nil, err\n	}\n\n	return p.buildParentNode(car, children)", New: "	err = p.eat(rParen)\n	if err == nil {\n		return p.buildParentNode(car, children)\n	}\n	return nil, err"}}},
+}
